@@ -8,7 +8,7 @@
     ([tok_ok]); the only strings it cannot render start with the shape-name
     sentinel '%' without being of the form %<...> ([C04_tune_token_none]),
     which no IRI / datatype of a valid document does.  With disjunctions
-    enabled the stage can raise ([C04_choice_prune_refuted]: a disjunction
+    enabled the stage can raise ([C04_clean_error_iff], [C04_choice_prune_run_refuted] -- before the repair a3b99df --: a disjunction
     next to an empty shape under remove_empty_shapes -- reachable only through
     a shape-map label whose node has no triples). *)
 From Coq Require Import List Ascii String ZArith NArith Bool.
@@ -496,3 +496,73 @@ Proof.
   split; [eexists; vm_compute; reflexivity | vm_compute; reflexivity].
 Qed.
 Print Assumptions C04_shacl_choice_refuted.
+
+(** ** profile_graph: the text of the profile never fails to come out
+    (Model/ProfileJson.v, Model/RunProfile.v; proofs in Proofs/ProfileJsonProofs.v).
+
+    [run_profile_json k c g] = [Shaper(...).profile_graph] on sink [k]: the
+    front (tracker + profiler) and [json.dumps] / [json.dump].  The renderer's
+    only error outcome is the TypeError of [sorted()] under [sort_keys=True]
+    (mixed int / str cardinality keys); the code passes no [sort_keys]: the
+    generated constants say so and the statements below depend on them. *)
+From Shexer Require Import Gen.ConstsProfile Model.ProfileJson Model.RunProfile Proofs.ProfileJsonProofs.
+
+(** the arguments of the two json calls, as read from the source *)
+Theorem C04_profile_json_arguments : forall k,
+  j_sort_keys (sink_cfg k) = false /\ j_indent (sink_cfg k) = c_profile_json_indent.
+Proof. intros k. split; [apply sink_no_sort | apply sink_indent]. Qed.
+Print Assumptions C04_profile_json_arguments.
+
+(** rendering is total: every profile object, both sinks *)
+Theorem C04_profile_rendering_total : forall k inverse P,
+  profile_text k inverse P = Some (render_json c_profile_json_indent 0 (profile_json inverse P)).
+Proof. exact profile_text_render. Qed.
+Print Assumptions C04_profile_rendering_total.
+
+(** a text comes out on exactly the inputs on which the front succeeds ... *)
+Theorem C04_profile_json_total_iff : forall k c g,
+  (exists t, run_profile_json k c g = inl t) <->
+  (exists ins P C ID,
+     track (r_tau c) (match r_targets c with Some l => TClasses l | None => TAll end) (r_cap c) g = inl ins /\
+     profile (pcfg_of c) ins g = inl (P, C, ID)).
+Proof. exact run_profile_json_total_iff. Qed.
+Print Assumptions C04_profile_json_total_iff.
+
+(** ... in particular on [C04_front_total]'s domain: every typing triple has a
+    node object; every other option, cap, target mode, inverse paths *)
+Theorem C04_profile_json_total : forall k c g,
+  typing_ok (r_tau c) g -> exists t, run_profile_json k c g = inl t.
+Proof. exact run_profile_json_total. Qed.
+Print Assumptions C04_profile_json_total.
+
+(** the failures are the front's: AttributeError, from the tracker or from the
+    feature pass on a bad triple ([E2E_profile_error]) -- never the serialiser *)
+Theorem C04_profile_json_errors : forall k c g e,
+  run_profile_json k c g = inr e <->
+  e = REAttr /\
+  ((exists te, track (r_tau c) (match r_targets c with Some l => TClasses l | None => TAll end) (r_cap c) g = inr te) \/
+   (exists ins t, track (r_tau c) (match r_targets c with Some l => TClasses l | None => TAll end) (r_cap c) g = inl ins /\
+                  In t g /\ Counts.bad_triple (r_tau c) ins t)).
+Proof. exact run_profile_json_err_iff. Qed.
+Print Assumptions C04_profile_json_errors.
+
+Theorem C04_profile_json_error_triple : forall k c g e,
+  run_profile_json k c g = inr e ->
+  e = REAttr /\ exists t, In t g /\ tp t = r_tau c /\ is_node (to t) = false.
+Proof. exact run_profile_json_err_triple. Qed.
+Print Assumptions C04_profile_json_error_triple.
+
+(** non-vacuity: texts on the pinned valid inputs (with and without inverse
+    paths), AttributeError on the literal-class graph; and what [sort_keys=True]
+    would do to a profile with an ordinary property (the seeded change C04-m2) *)
+Example C04_profile_json_nonvacuous :
+  (exists t, run_profile_json PString base_rcfg g_mixed = inl t) /\
+  (exists t, run_profile_json PFile (rwith_inverse true base_rcfg) g_reftie_1 = inl t) /\
+  run_profile_json PString base_rcfg g_literal_class = inr REAttr /\
+  dumps {| j_indent := 2; j_sort_keys := true |} (cdict_json [(CKn 1, 1%N); (CKplus, 1%N)]) = None /\
+  dumps {| j_indent := 2; j_sort_keys := true |} (cdict_json [(CKn 10, 1%N); (CKn 9, 2%N)])
+  = dumps {| j_indent := 2; j_sort_keys := false |} (cdict_json [(CKn 9, 2%N); (CKn 10, 1%N)]).
+Proof.
+  split; [eexists; vm_compute; reflexivity|]. split; [eexists; vm_compute; reflexivity|].
+  repeat split; vm_compute; reflexivity.
+Qed.
